@@ -158,6 +158,8 @@ type Sim struct {
 	seq     int64 // global event sequence number for history stamps
 	selN    int64 // select statements executed so far (selectseam.go)
 	randN   int64 // random values drawn so far (randseam.go)
+	poolN   int64 // sync.Pool calls so far (poolseam.go)
+	pools   map[*sync.Pool]*poolState
 
 	res     *Result
 	current *Task
